@@ -150,7 +150,9 @@ dt_io_strfdt(
 	size_t res = dt_strfdt(buf, bsz, fmt, that);
 
 	if (LIKELY(res > 0) && apnd_ch && buf[res - 1] != apnd_ch) {
-		/* auto-newline */
+		/* auto-newline, at the expense of the last character
+		 * when the buffer is full */
+		res -= res >= bsz;
 		buf[res++] = (char)apnd_ch;
 	}
 	return res;
